@@ -2024,3 +2024,44 @@ def r_index_array_dtype(ctx, f: FunctionInfo, pname: str, rule="R-KIND", chain=N
            f"`{unparse(n)[:60]}`" if ok else
            f"`{unparse(n)[:60]}` gives a float64 array for the empty list: the empty set of positions then fails as an index "
            "(IndexError: arrays used as indices must be of integer type) instead of leaving the operand unchanged", n, chain=chain)
+
+
+# ---------------------------------------------------------------------------------------------
+def r_scalar_dim_bipartite(ctx, f: FunctionInfo, rule="R-KIND", chain=None):
+    """A scalar `dim` d means the bipartition [d, N/d] -- in every function of the library, and in their documentation.  In a branch that is
+    taken for a scalar dim (isinstance(dim, int|float), len(dim) == 1, max(dim.shape) == 1), `dim` may only be re-bound to that pair (or to
+    a one-element array holding the scalar); a re-binding to k equal factors ([d] * k, np.full(k, d), np.repeat) gives the same call a
+    different meaning whenever N happens to be a power of d."""
+    def scalar_test(t):
+        u = unparse(t).replace(" ", "")
+        return ("isinstance(dim,int" in u or "isinstance(dim,(int" in u or "isinstance(dim,float" in u or "len(dim)==1" in u or "max(dim.shape)==1" in u
+                or "max(dim.shape))==1" in u or "len(dim))==1" in u or "dim.size==1" in u)
+    bad, sites = None, 0
+    # only functions that expand the scalar against the size of an operand ([dim, N/dim]) are of this kind; permutation_operator /
+    # swap_operator have no operand and document the scalar as the common local dimension of all subsystems
+    if not scalar_dim_expansions(f):
+        return 0
+    for n in walk_no_nested(f.node):
+        if not (isinstance(n, ast.If) and scalar_test(n.test)):
+            continue
+        for st in ast.walk(ast.Module(body=n.body, type_ignores=[])):
+            if isinstance(st, ast.Assign) and len(st.targets) == 1 and isinstance(st.targets[0], ast.Name) and st.targets[0].id == "dim":
+                sites += 1
+                v = st.value
+                while isinstance(v, ast.Call) and unparse(v.func) in ("np.array", "numpy.array", "np.asarray", "np.int_", "list") and v.args:
+                    v = v.args[0]
+                if isinstance(v, (ast.List, ast.Tuple)):
+                    rows = v.elts if not all(isinstance(x, (ast.List, ast.Tuple)) for x in v.elts) else v.elts[0].elts
+                    if len(rows) > 2:
+                        bad = bad or st
+                elif isinstance(v, ast.Call) and unparse(v.func) in ("np.full", "np.repeat", "np.tile", "np.ones", "numpy.full", "numpy.repeat", "numpy.tile"):
+                    bad = bad or st
+                elif isinstance(v, ast.BinOp) and isinstance(v.op, ast.Mult) and (isinstance(v.left, ast.List) or isinstance(v.right, ast.List)):
+                    bad = bad or st
+    key = "a scalar `dim` always means the bipartition [dim, N/dim]"
+    if bad is not None:
+        ctx.ob(rule, f, key, False, f"`{unparse(bad)[:70]}` (line {bad.lineno}) turns a scalar dim into several equal factors: `f(X, sys, d)` on an operator of size d^k, k > 2, now acts on "
+               "k subsystems of dimension d instead of on [d, N/d] -- a different subsystem is transposed / traced for the same call", bad, chain=chain)
+    elif sites:
+        ctx.ob(rule, f, key, True, f"{sites} re-binding(s) of `dim` in scalar branches, all pairs", chain=chain)
+    return sites
